@@ -2418,7 +2418,7 @@ class KmipEngine(object):
                             value.value
                         )
                     else:
-                        if value != attribute:
+                        if value.value != attribute:
                             add_object = False
                             break
 
